@@ -346,19 +346,20 @@ func CompileList(list List) (f Object) {
 				// patched by Package.DefLambda once the function is defined
 				// so the call must keep its arguments. Until then a call
 				// accepts any arguments and fails as an undefined function.
-				lc := Lambda{
-					Doc: &FuncDoc{
-						Name: name,
-						Args: []*DocArg{{Name: AmpRest}, {Name: "args"}},
-					},
-					Forms: List{Undefined(name)},
+				// If the function was removed with fmakunbound the Lambda
+				// registered for the name is still referred to by the calls
+				// compiled earlier so it is used again.
+				lc := CurrentPackage.lambdas[name]
+				if lc == nil {
+					lc = &Lambda{}
+					lc.makeUndefined(name)
+					CurrentPackage.lambdas[name] = lc
 				}
-				CurrentPackage.lambdas[name] = &lc
 				fc := func(args List) Object {
 					return &Dynamic{
 						Function: Function{
 							Name: name,
-							Self: &lc,
+							Self: lc,
 							Args: args,
 						},
 					}
